@@ -7,9 +7,9 @@
 import Lean.Data.Json
 import Boario.Sim
 import Boario.Init
--- import Boario.Layout
--- import Boario.Impact
--- import Boario.Labels
+import Boario.Layout
+import Boario.Impact
+import Boario.Labels
 -- import Boario.Records
 
 open Lean Boario
@@ -494,6 +494,93 @@ def opTrackerInit (j : Json) : Except String Json := do
     ("hdmg0", jOpt (tr.hdmg0.map fun f => jArr (tabF d f))), ("arb0", jArr (tabI d tr.arb0)),
     ("prec", (tr.prec : Json))]
 
+/-! ### impact distribution, label canonicalisation, layout -/
+
+def getLabelled (j : Json) : Except String (List (Nat × Rat)) := do
+  let arr ← match j.getArr? with
+    | .ok a => pure a
+    | .error _ => throw "labelled list: array expected"
+  arr.toList.mapM fun p => do
+    let pr ← match p.getArr? with
+      | .ok a => pure a
+      | .error _ => throw "labelled entry: pair expected"
+    if pr.size ≠ 2 then throw "labelled entry: pair expected"
+    let k ← match pr[0]!.getNat? with
+      | .ok n => pure n
+      | .error _ => throw "label: nat expected"
+    let v ← getRat pr[1]!
+    pure (k, v)
+
+def getOptLabelled (j : Json) (k : String) : Except String (Option (List (Nat × Rat))) := do
+  match j.getObjVal? k with
+  | .ok .null => pure none
+  | .ok v => do let l ← getLabelled v; pure (some l)
+  | .error _ => throw s!"missing field {k}"
+
+def getNatList (j : Json) (k : String) : Except String (List Nat) := do
+  let v ← fld j k
+  let arr ← match v.getArr? with
+    | .ok a => pure a
+    | .error _ => throw s!"{k}: array expected"
+  arr.toList.mapM fun x => match x.getNat? with
+    | .ok n => pure n
+    | .error _ => throw s!"{k}: nat expected"
+
+def jLabelled (l : List (Nat × Rat)) : Json :=
+  Json.arr (l.map fun p => Json.arr #[(p.1 : Json), jRat p.2]).toArray
+
+def showReject : Impact.Reject → String
+  | .nullImpact => "nullImpact" | .empty => "empty" | .weightsMissing => "weightsMissing"
+  | .notNormalisable => "notNormalisable" | .negative => "negative"
+
+def opImpact (j : Json) : Except String Json := do
+  let kind ← getStr j "kind"
+  let impact ← getRatF j "impact"
+  let res ← match kind with
+    | "industries" => do
+      let aff ← getNatList j "aff"
+      let w ← getOptLabelled j "weights"
+      pure (Impact.distributeIndustries impact aff w)
+    | "regions_sectors" => do
+      let regs ← getNatList j "regs"
+      let secs ← getNatList j "secs"
+      let nSec ← getNat j "nSec"
+      let wr ← getOptLabelled j "wr"
+      let ws ← getOptLabelled j "ws"
+      pure (Impact.regionsSectors impact regs secs nSec wr ws)
+    | "series" => do
+      let l ← getLabelled (← fld j "l")
+      pure (Impact.fromSeries l)
+    | _ => throw s!"unknown impact kind {kind}"
+  match res with
+  | .ok l => pure <| Json.mkObj [("out", "ok"), ("l", jLabelled l)]
+  | .error e => pure <| Json.mkObj [("out", "reject"), ("why", showReject e)]
+
+def opCanon (j : Json) : Except String Json := do
+  let l ← getLabelled (← fld j "l")
+  let n ← match j.getObjVal? "widen" with
+    | .ok v => match v.getNat? with
+      | .ok n => pure (some n)
+      | .error _ => throw "widen: nat expected"
+    | .error _ => pure none
+  let base := [("canon", jLabelled (Labels.canon l)), ("values", Json.arr ((Labels.values l).map jRat).toArray)]
+  match n with
+  | some n => pure <| Json.mkObj (base ++ [("wide", Json.arr ((Labels.widen n l).map jRat).toArray)])
+  | none => pure <| Json.mkObj base
+
+def jRange (r : Layout.Range) : Json := Json.arr #[(r.lo : Json), (r.hi : Json)]
+
+def opLayout (j : Json) : Except String Json := do
+  let N ← getNat j "N"; let F ← getNat j "F"; let nb ← getNat j "nb"; let id ← getNat j "id"
+  pure <| Json.mkObj [("width", (Layout.width N F nb : Json)),
+    ("writeIndus", jRange (Layout.writeIndus N id)), ("writeHouse", jRange (Layout.writeHouse N F nb id)),
+    ("readIndus", jRange (Layout.readIndus N id)), ("readHouse", jRange (Layout.readHouse N F nb id))]
+
+def opAdmit (j : Json) : Except String Json := do
+  let T ← getNat j "T"; let occ ← getNat j "occ"; let dur ← getNat j "dur"
+  let ok := decide (0 < occ ∧ occ ≤ T ∧ 0 < occ + dur ∧ occ + dur ≤ T)
+  pure <| Json.mkObj [("admitted", ok)]
+
 /-! ### dispatcher -/
 
 def handle (ctx : Option Ctx) (line : String) : Option Ctx × Json :=
@@ -525,9 +612,10 @@ def handle (ctx : Option Ctx) (line : String) : Option Ctx × Json :=
       | "events_post" => run opEventsPost
       | "mkparams" => pure' opMkParams
       | "trackerinit" => pure' opTrackerInit
---    | "layout" => pure' Boario.Driver.opLayout
---    | "impact" => pure' Boario.Driver.opImpact
---    | "canon" => pure' Boario.Driver.opCanon
+      | "layout" => pure' opLayout
+      | "admission" => pure' opAdmit
+      | "impact" => pure' opImpact
+      | "canon" => pure' opCanon
 --    | "records" => pure' Boario.Driver.opRecords
       | _ => (ctx, Json.mkObj [("bad-op", Json.str s!"unknown op {op}")])
 
